@@ -1134,7 +1134,7 @@ def main(tier):
             n_spec_bad += 1
             if n_spec_bad <= 4:
                 ck.violation("pyscn check exit status %d but the gate conditions say %s (effective max complexity %s, max cycles %s)"
-                             % (rc, "pass" if spec else "fail", eff, effcyc), replay)
+                             % (rc, "pass" if spec else "fail", eff, effcyc), replay, independent=(spec == spec_py))
         elif rc == 0 and not literal_ok:
             tags = {"class": "clone-analysis-failed", "exit": 0,
                     "gated_analysis_failed": False}
